@@ -103,7 +103,10 @@ def parseMethods (s : String) : Option (List MethodInfo) :=
   (s.splitOn ",").mapM fun m =>
     match m.splitOn ":" with
     | [n, t, k] => match parseMType t, parseKind k with
-      | some ty, some kd => some ⟨bytesOfString n, ty, kd⟩
+      | some ty, some kd => some ⟨bytesOfString n, ty, kd, []⟩
+      | _, _ => none
+    | [n, t, k, i] => match parseMType t, parseKind k with
+      | some ty, some kd => some ⟨bytesOfString n, ty, kd, if i == "-" then [] else bytesOfString i⟩
       | _, _ => none
     | _ => none
 
@@ -118,7 +121,8 @@ def showStatus (status : Nat) (rpcErr : Bool) : String := s!"{status}" ++ (if rp
 def showEv : Ev → String
   | .rehydrate m => "rh:" ++ hexOfBytes m
   | .hookStart m s => "hs:" ++ hexOfBytes m ++ ":" ++ (if s.isEmpty then "rnd" else hexOfBytes s)
-  | .hookEnd => "he" | .produce => "produce" | .exchange => "exchange" | .cancel => "cancel"
+  | .hookEnd => "he" | .produce => "produce" | .exchange seen => "exchange:" ++ String.ofList (seen.map fun b => Char.ofNat b.toNat)
+  | .cancel => "cancel"
 
 def showEvents (es : List Ev) : String := if es.isEmpty then "-" else ",".intercalate (es.map showEv)
 
@@ -238,7 +242,7 @@ def applyInit (w : World) (iname : String) (who : Ident) (method : Bytes) (limit
           | some t2 =>
             -- packCallToken warms the cache
             let c := cachePut inst.cacheMax inst.ttl inst.cache now (cacheKey cd.callId who)
-              ⟨kd.schema, kd.streamId⟩ (tokenExpiry inst.ttl kd.created)
+              kd.resolved (tokenExpiry inst.ttl kd.created)
             (({ w with sealed := t2 }).setInst iname { inst with cache := c }, line)
 
 def applyCont (w : World) (iname : String) (req : Req) (env : Option (Bytes × Int)) : World × String :=
@@ -322,7 +326,7 @@ def parseCont (iname ident method : String) (ws : List String) : Option Cmd :=
     let env := match fBytes ws "new", fInt ws "ncreated" with
       | some t, some c => some (t, c)
       | _, _ => none
-    some (.cont iname ⟨who, bytesOfString method, cur, call, cancel, sess, now⟩ env)
+    some (.cont iname ⟨who, bytesOfString method, cur, call, cancel, sess, now, bytesOfString ((field ws "in").getD "")⟩ env)
   | _, _, _, _, _, _ => none
 
 def parseSeal (kind iname ident : String) (ws : List String) : Option Cmd :=
@@ -337,7 +341,9 @@ def parseSeal (kind iname ident : String) (ws : List String) : Option Cmd :=
       | _, _, _, _, _, _ => none
     | "call" =>
       match fInt ws "created", fBytes ws "callid", fBytes ws "schema", fBytes ws "streamid" with
-      | some cr, some cid, some sc, some sid => some (.seal iname (callAad who) false tok (.call ⟨cr, cid, sc, sid⟩))
+      | some cr, some cid, some sc, some sid =>
+        let ins := match field ws "insch" with | some "-" => "" | some t => t | none => ""
+        some (.seal iname (callAad who) false tok (.call ⟨cr, cid, sc, sid, bytesOfString ins⟩))
       | _, _, _, _ => none
     | "session" =>
       match fBytes ws "serverid", fBytes ws "sid" with
